@@ -364,11 +364,11 @@ class VLock(_Named):
     def acquire(self, blocking=True, timeout=-1):
         s = cur_sched()
         if not blocking:
-            s.yield_op(("op", self, "try_acquire"))
+            s.yield_op(("op", self, "try_acquire"), write=False)
             if self.held:
                 return False
         else:
-            s.yield_op(("lock", self, None))
+            s.yield_op(("lock", self, None), write=False)      # taking / releasing a lock alone is not progress
             if self.held and s.cur is not None:
                 raise DoubleMisuse("scheduler ran a thread blocked on a held lock")
         self.held = True
@@ -379,7 +379,7 @@ class VLock(_Named):
 
     def release(self):
         s = cur_sched()
-        s.yield_op(("op", self, "release"))
+        s.yield_op(("op", self, "release"), write=False)
         if not self.held:
             raise RuntimeError("release unlocked lock")
         if self.owner is not None and self in self.owner.holds:
@@ -404,11 +404,11 @@ class VEvent(_Named):
         self.flag = False
 
     def set(self):
-        cur_sched().yield_op(("op", self, "set"))
+        cur_sched().yield_op(("op", self, "set"), write=not self.flag)
         self.flag = True
 
     def clear(self):
-        cur_sched().yield_op(("op", self, "clear"))
+        cur_sched().yield_op(("op", self, "clear"), write=self.flag)
         self.flag = False
 
     def is_set(self):
